@@ -1,27 +1,48 @@
 //! Par/Seq engine (C16): trees assembled at run time from the real `Par` / `Seq` nodes through
 //! a boxing adapter, with harness leaves that really borrow what they declare.
 //!
+//! Leaves come in every accessor flavour the crate allows (`parseq/leaves.rs`): `n` dynamic
+//! system data whose accessor type has no default (`try_new() -> None`), `d` dynamic system
+//! data whose accessor type has a default (`try_new() -> Some(empty)`) with `System::accessor`
+//! overridden, `s<k>` / `p<k>` static system data number `k` (`StaticAccessor`, real `Read` /
+//! `Write` types; `s` overrides `System::setup` to count it, `p` overrides nothing).
+//!
 //! Per case: (1) the tree is built with the real `Par::new/with`, `Seq::new/with` in a build
 //! with debug assertions — every `with` under `catch_unwind` — and the first panicking `with`
 //! (node, child) is compared with the harness's own leaf-level conflict computation (impl
-//! oracle) and with the model (`ps tree`); (2) `reads()` / `writes()` of the root against the
-//! concatenation over the leaves (impl) and the model; (3) `ParSeq::setup` reaches every leaf
-//! once (impl), order against the model; (4) `ParSeq::dispatch` on pools of 1/2/4/8 threads,
-//! called from outside the pool, from one of its workers and from a worker of another pool,
-//! with holds / a rendezvous inside `run`: exactly-once and seq-order oracles on the event log
-//! (impl), the log fed to the Lean acceptor of `toTask` (model), and the observed overlap of par
-//! children recorded.
+//! oracle) and with the model (`ps tree`); (2) `reads()` / `writes()` of EVERY node (each
+//! subtree built on its own, down to the single leaves) against the concatenation over the
+//! leaves' own accessors (impl) and the model (`ps reads` / `ps writes` / `ps rw`); (3) a
+//! script of `setup` calls on one `ParSeq` — through `ParSeq::setup` and through
+//! `RunNow::setup`, again on the same world, on a fresh `World::empty()`, after the resources
+//! the leaves create were removed — and after EVERY call: each leaf's hook counters went up by
+//! exactly one and the world holds exactly what it held before plus what the leaves create
+//! (impl), hook order and created ids against the model (`ps setup`); (4) after every setup
+//! call `ParSeq::dispatch` / `RunNow::run_now` on that world, on pools of 1/2/4/8 threads held
+//! as `&ThreadPool` or `Arc<ThreadPool>`, called from outside the pool, from one of its workers
+//! and from a worker of another pool, with holds / a rendezvous inside `run`: exactly-once and
+//! seq-order oracles on the event log (impl), the log fed to the Lean acceptor of `toTask`
+//! (model), and the observed overlap of par children recorded. Trees of phase (3)/(4) are
+//! built with the `par!` / `seq!` macros when the run says so.
 //!
-//! Case lines (replay / corpus; the first two are also what the Lean driver reads after `ps `):
-//! `leaf <tag> <reads> <writes>`, `tree <tokens>`, `run <pool> <mode> <sync> <reps> <hseed>`.
+//! Case lines (replay / corpus): `leaf <tag> <reads> <writes> [<flavour>]`, `tree <tokens>`,
+//! `run <pool> <mode> <sync> <reps> <hseed> [<setup script> <options>]` — script: one letter per
+//! setup call, `A` the first (full) world, `B` a fresh empty world, `R` the current world after
+//! removing what the leaves create; upper case = `ParSeq::setup` + `dispatch`, lower case =
+//! `RunNow::setup` + `run_now`; `-` = the single call older cases made. Options: `a` = the pool
+//! is handed over as `Arc<ThreadPool>`, `m` = built with the macros, `-` = neither.
 use crate::common::*;
 use crate::gen::{parse_resl, resl, Res, NDY, NTY};
 use crate::sys::*;
 use shred::{Par, ParSeq, ResourceId, RunWithPool, Seq, World};
+use std::borrow::Borrow;
 use std::collections::{BTreeMap, BTreeSet};
 use std::panic::{catch_unwind, AssertUnwindSafe};
 use std::sync::atomic::Ordering::SeqCst;
 use std::sync::Arc;
+
+pub mod leaves;
+use leaves::{dyn_creates, mk_static, PSys, NSTAT, STAT, STAT_NAME};
 
 const PROP: &str = "C16";
 const WITH_MSG: &str = "Tried to add system with conflicting reads / writes";
@@ -107,6 +128,97 @@ fn mk_seq(cs: Vec<Dyn>) -> Result<Dyn, (usize, String)> {
     Ok(Dyn::new(p))
 }
 
+/// the same nodes written with the crate's macros (`par![c0, c1, ..,]`, `seq![..]`, one child
+/// included); a panic of a `with` inside is not attributed to a child here — this is used for
+/// trees that the explicit construction has already accepted
+fn mk_macro(par: bool, cs: Vec<Dyn>) -> Dyn {
+    let n = cs.len();
+    assert!(n >= 1 && n <= MAX_FANOUT, "fan-out {} not supported", n);
+    let mut it = cs.into_iter();
+    let mut c = move || it.next().unwrap();
+    if par {
+        match n {
+            1 => Dyn::new(shred::par![c(),]),
+            2 => Dyn::new(shred::par![c(), c(),]),
+            3 => Dyn::new(shred::par![c(), c(), c(),]),
+            4 => Dyn::new(shred::par![c(), c(), c(), c(),]),
+            5 => Dyn::new(shred::par![c(), c(), c(), c(), c(),]),
+            _ => Dyn::new(shred::par![c(), c(), c(), c(), c(), c(),]),
+        }
+    } else {
+        match n {
+            1 => Dyn::new(shred::seq![c(),]),
+            2 => Dyn::new(shred::seq![c(), c(),]),
+            3 => Dyn::new(shred::seq![c(), c(), c(),]),
+            4 => Dyn::new(shred::seq![c(), c(), c(), c(),]),
+            5 => Dyn::new(shred::seq![c(), c(), c(), c(), c(),]),
+            _ => Dyn::new(shred::seq![c(), c(), c(), c(), c(), c(),]),
+        }
+    }
+}
+
+/// accessor flavour of a leaf (see `leaves.rs`)
+#[derive(Clone, Copy, Debug, PartialEq, Eq, PartialOrd, Ord)]
+pub enum Flav {
+    /// dynamic data, accessor type without default, `System::accessor` overridden
+    N,
+    /// dynamic data, accessor type with an (empty) default, `System::accessor` overridden
+    D,
+    /// static data number k, `System::setup` overridden (counted)
+    S(usize),
+    /// static data number k, nothing overridden
+    P(usize),
+}
+impl Flav {
+    pub fn text(&self) -> String {
+        match self {
+            Flav::N => "n".into(),
+            Flav::D => "d".into(),
+            Flav::S(k) => format!("s{}", k),
+            Flav::P(k) => format!("p{}", k),
+        }
+    }
+    pub fn parse(s: &str) -> Option<Flav> {
+        match s {
+            "n" => Some(Flav::N),
+            "d" => Some(Flav::D),
+            _ => {
+                let k: usize = s.get(1..)?.parse().ok()?;
+                if k >= NSTAT {
+                    return None;
+                }
+                match &s[..1] {
+                    "s" => Some(Flav::S(k)),
+                    "p" => Some(Flav::P(k)),
+                    _ => None,
+                }
+            }
+        }
+    }
+    pub fn describe(&self) -> String {
+        match self {
+            Flav::N => "dynamic data, accessor type without default, System::accessor overridden".into(),
+            Flav::D => "dynamic data, accessor type with try_new() = Some(empty), System::accessor overridden".into(),
+            Flav::S(k) => format!("static data {}, System::setup overridden", STAT_NAME[*k]),
+            Flav::P(k) => format!("static data {}, nothing overridden", STAT_NAME[*k]),
+        }
+    }
+    /// the letter the Lean driver is told: which accessor exists
+    pub fn model_letter(&self) -> &'static str {
+        match self {
+            Flav::N => "n",
+            Flav::D => "d",
+            Flav::S(_) | Flav::P(_) => "s",
+        }
+    }
+    pub fn stat(&self) -> Option<usize> {
+        match self {
+            Flav::S(k) | Flav::P(k) => Some(*k),
+            _ => None,
+        }
+    }
+}
+
 #[derive(Clone, Debug, PartialEq)]
 pub enum Shape {
     Leaf(usize),
@@ -189,6 +301,15 @@ impl Shape {
             }
         }
     }
+    /// every node of the tree as a tree of its own, the root first
+    pub fn subtrees(&self, out: &mut Vec<Shape>) {
+        out.push(self.clone());
+        if let Shape::Par(cs) | Shape::Seq(cs) = self {
+            for c in cs {
+                c.subtrees(out);
+            }
+        }
+    }
     /// simpler shapes for shrinking: a child in place of its parent, a child dropped, recursively
     pub fn variants(&self) -> Vec<Shape> {
         match self {
@@ -225,13 +346,51 @@ pub struct RunCfg {
     pub mode: u8,
     /// 0 = no holds, 1 = random holds inside `run`, 2 = rendezvous of two systems (bounded wait)
     pub sync: u8,
+    /// dispatches after every setup call
     pub reps: u32,
     pub hseed: u64,
+    /// one letter per `setup` call on the one `ParSeq` of this run: `A` the first world (every
+    /// harness resource present), `B` a fresh `World::empty()`, `R` the current world after the
+    /// resources the leaves create were removed; upper case = `ParSeq::setup` and `dispatch`,
+    /// lower case = `RunNow::setup` and `run_now`. Empty = what cases written before the script
+    /// existed did: one call on the first world (through the trait iff the leaf count is odd).
+    pub script: String,
+    /// hand the pool to `ParSeq::new` as `Arc<ThreadPool>` instead of `&ThreadPool`
+    pub arc: bool,
+    /// build the tree of this run with `par!` / `seq!`
+    pub macros: bool,
+}
+impl RunCfg {
+    pub fn plain(pool: usize, mode: u8, sync: u8, reps: u32, hseed: u64) -> RunCfg {
+        RunCfg { pool, mode, sync, reps, hseed, script: String::new(), arc: false, macros: false }
+    }
+    pub fn opts(&self) -> String {
+        let mut o = String::new();
+        if self.arc {
+            o.push('a');
+        }
+        if self.macros {
+            o.push('m');
+        }
+        if o.is_empty() {
+            o.push('-');
+        }
+        o
+    }
+    pub fn line(&self) -> String {
+        let mut l = format!("run {} {} {} {} {}", self.pool, self.mode, self.sync, self.reps, self.hseed);
+        if !self.script.is_empty() || self.arc || self.macros {
+            l.push_str(&format!(" {} {}", if self.script.is_empty() { "-" } else { &self.script }, self.opts()));
+        }
+        l
+    }
 }
 
 #[derive(Clone, Debug, PartialEq)]
 pub struct Case {
     pub decls: BTreeMap<usize, (Vec<Res>, Vec<Res>)>,
+    /// accessor flavour of the leaves (absent = `Flav::N`)
+    pub flavs: BTreeMap<usize, Flav>,
     pub shape: Shape,
     pub runs: Vec<RunCfg>,
 }
@@ -240,16 +399,18 @@ impl Case {
         let mut v = vec![];
         for t in self.shape.leaves() {
             let (r, w) = self.decl(t);
-            v.push(format!("leaf {} {} {}", t, resl(&r), resl(&w)));
+            let f = self.flav(t);
+            v.push(format!("leaf {} {} {}{}", t, resl(&r), resl(&w), if f == Flav::N { String::new() } else { format!(" {}", f.text()) }));
         }
         v.push(format!("tree {}", self.shape.text()));
         for r in &self.runs {
-            v.push(format!("run {} {} {} {} {}", r.pool, r.mode, r.sync, r.reps, r.hseed));
+            v.push(r.line());
         }
         v
     }
     pub fn parse(lines: &[String]) -> Option<Case> {
         let mut decls = BTreeMap::new();
+        let mut flavs = BTreeMap::new();
         let mut shape = None;
         let mut runs = vec![];
         for l in lines {
@@ -258,14 +419,43 @@ impl Case {
                 ["leaf", t, r, w] => {
                     decls.insert(t.parse().ok()?, (parse_resl(r), parse_resl(w)));
                 }
+                ["leaf", t, r, w, f] => {
+                    let t: usize = t.parse().ok()?;
+                    let f = Flav::parse(f)?;
+                    let d = (parse_resl(r), parse_resl(w));
+                    // static system data declares what its type says, nothing else
+                    if let Some(k) = f.stat() {
+                        if d.0 != STAT[k].0 || d.1 != STAT[k].1 {
+                            return None;
+                        }
+                    }
+                    decls.insert(t, d);
+                    flavs.insert(t, f);
+                }
                 ["tree", rest @ ..] => shape = Some(Shape::parse(rest)?),
-                ["run", pool, mode, sync, reps, hseed] => runs.push(RunCfg {
-                    pool: pool.parse().ok()?,
-                    mode: mode.parse().ok()?,
-                    sync: sync.parse().ok()?,
-                    reps: reps.parse().ok()?,
-                    hseed: hseed.parse().ok()?,
-                }),
+                ["run", pool, mode, sync, reps, hseed, rest @ ..] => {
+                    let mut rc = RunCfg::plain(pool.parse().ok()?, mode.parse().ok()?, sync.parse().ok()?, reps.parse().ok()?, hseed.parse().ok()?);
+                    match rest {
+                        [] => {}
+                        [script, opts] => {
+                            if *script != "-" {
+                                if script.is_empty() || script.len() > 12 || !script.chars().all(|c| "AaBbRrNn".contains(c)) {
+                                    return None;
+                                }
+                                rc.script = script.to_string();
+                            }
+                            if *opts != "-" {
+                                if !opts.chars().all(|c| "am".contains(c)) {
+                                    return None;
+                                }
+                                rc.arc = opts.contains('a');
+                                rc.macros = opts.contains('m');
+                            }
+                        }
+                        _ => return None,
+                    }
+                    runs.push(rc);
+                }
                 [] => {}
                 _ => return None,
             }
@@ -282,18 +472,42 @@ impl Case {
                 return None;
             }
         }
-        Some(Case { decls, shape, runs })
+        // a static leaf without a `leaf` line would declare nothing: only `s0` / `p0` may
+        for (t, f) in &flavs {
+            if !decls.contains_key(t) && f.stat().map(|k| k != 0).unwrap_or(false) {
+                return None;
+            }
+        }
+        Some(Case { decls, flavs, shape, runs })
     }
     pub fn decl(&self, t: usize) -> (Vec<Res>, Vec<Res>) {
         self.decls.get(&t).cloned().unwrap_or_default()
+    }
+    pub fn flav(&self, t: usize) -> Flav {
+        self.flavs.get(&t).cloned().unwrap_or(Flav::N)
+    }
+    /// what the leaf's setup creates when absent, in creation order
+    pub fn creates(&self, t: usize) -> Vec<Res> {
+        match self.flav(t).stat() {
+            Some(k) => STAT[k].2.to_vec(),
+            None => {
+                let (r, w) = self.decl(t);
+                dyn_creates(&r, &w)
+            }
+        }
     }
     pub fn key(&self) -> String {
         let mut s = self.shape.text();
         for t in self.shape.leaves() {
             let (r, w) = self.decl(t);
-            s.push_str(&format!("|{}:{}:{}", t, resl(&r), resl(&w)));
+            s.push_str(&format!("|{}:{}:{}:{}", t, resl(&r), resl(&w), self.flav(t).text()));
         }
         s
+    }
+    /// the request that tells the Lean driver about leaf `t`
+    pub fn driver_leaf(&self, t: usize) -> String {
+        let (r, w) = self.decl(t);
+        format!("ps leaf {} {} {} {} {}", t, resl(&r), resl(&w), self.flav(t).model_letter(), resl(&self.creates(t)))
     }
 }
 
@@ -351,22 +565,37 @@ pub enum BuildErr {
 
 /// the real constructors, in the order described at `expected_panic`
 pub fn build_real(case: &Case, shared: &Arc<Shared>) -> Result<Dyn, BuildErr> {
-    fn go(case: &Case, shared: &Arc<Shared>, s: &Shape, pos: &mut usize) -> Result<Dyn, BuildErr> {
+    build_with(case, shared, false)
+}
+/// one leaf system of the flavour the case asks for
+pub fn mk_leaf(case: &Case, t: usize, shared: &Arc<Shared>) -> Dyn {
+    let (r, w) = case.decl(t);
+    match case.flav(t) {
+        Flav::N => Dyn::new(PSys::<false>::new(t, r, w, shared)),
+        Flav::D => Dyn::new(PSys::<true>::new(t, r, w, shared)),
+        Flav::S(k) => mk_static(k, false, t, shared),
+        Flav::P(k) => mk_static(k, true, t, shared),
+    }
+}
+/// `macros`: the nodes are written with `par!` / `seq!` (no attribution of a panicking `with`)
+pub fn build_with(case: &Case, shared: &Arc<Shared>, macros: bool) -> Result<Dyn, BuildErr> {
+    fn go(case: &Case, shared: &Arc<Shared>, s: &Shape, pos: &mut usize, macros: bool) -> Result<Dyn, BuildErr> {
         match s {
             Shape::Leaf(t) => {
                 *pos += 1;
-                let (r, w) = case.decl(*t);
-                Ok(Dyn::new(HSys { acc: Acc { tag: *t, decl_r: r, decl_w: w, shared: shared.clone(), path: vec![], borrow: true }, time: rt(3) }))
+                Ok(mk_leaf(case, *t, shared))
             }
             Shape::Par(cs) | Shape::Seq(cs) => {
                 let id = *pos;
                 *pos += 1;
                 let mut v = vec![];
                 for c in cs {
-                    v.push(go(case, shared, c, pos)?);
+                    v.push(go(case, shared, c, pos, macros)?);
                 }
                 *pos += 1;
-                if matches!(s, Shape::Par(_)) {
+                if macros {
+                    Ok(mk_macro(matches!(s, Shape::Par(_)), v))
+                } else if matches!(s, Shape::Par(_)) {
                     mk_par(v).map_err(|(k, m)| if m == WITH_MSG { BuildErr::With { node: id, k } } else { BuildErr::Other(format!("Par::with (node {}, child {}) panicked with {:?}", id, k, m)) })
                 } else {
                     mk_seq(v).map_err(|(k, m)| BuildErr::Other(format!("Seq::with (node {}, child {}) panicked with {:?}", id, k, m)))
@@ -374,21 +603,29 @@ pub fn build_real(case: &Case, shared: &Arc<Shared>) -> Result<Dyn, BuildErr> {
             }
         }
     }
-    match catch_unwind(AssertUnwindSafe(|| go(case, shared, &case.shape, &mut 0))) {
+    match catch_unwind(AssertUnwindSafe(|| go(case, shared, &case.shape, &mut 0, macros))) {
         Ok(r) => r,
         Err(e) => Err(BuildErr::Other(format!("construction panicked outside `with`: {}", panic_message(&e)))),
     }
 }
 
 pub struct Pools {
-    pools: BTreeMap<usize, rayon::ThreadPool>,
+    pools: BTreeMap<usize, Arc<rayon::ThreadPool>>,
     other: rayon::ThreadPool,
 }
 impl Pools {
     pub fn new() -> Pools {
         let mk = |n: usize| rayon::ThreadPoolBuilder::new().num_threads(n).build().unwrap();
-        Pools { pools: [1usize, 2, 4, 8].iter().map(|&n| (n, mk(n))).collect(), other: mk(2) }
+        Pools { pools: [1usize, 2, 4, 8].iter().map(|&n| (n, Arc::new(mk(n)))).collect(), other: mk(2) }
     }
+}
+
+/// which harness resources are present in a world
+fn present(w: &World, tab: &[(ResourceId, Res)]) -> Vec<Res> {
+    tab.iter().filter(|(id, _)| w.has_value_raw(id.clone())).map(|x| x.1).collect()
+}
+fn remove_res(w: &mut World, r: Res) {
+    by_ty!(r.0, K => { w.remove_by_id::<R<K>>(rid(r)); })
 }
 
 fn res_table() -> Vec<(ResourceId, Res)> {
@@ -489,6 +726,15 @@ fn overlap_stats(s: &Shape, win: &BTreeMap<usize, (usize, usize)>) -> (u64, u64)
     r
 }
 
+/// for messages about small trees: the flavours of the leaves
+fn flav_note(case: &Case) -> String {
+    let lv = case.shape.leaves();
+    if lv.len() > 3 {
+        return String::new();
+    }
+    format!("; {}", lv.iter().map(|t| format!("leaf {}: {}", t, case.flav(*t).describe())).collect::<Vec<_>>().join("; "))
+}
+
 #[derive(Default)]
 pub struct CaseResult {
     /// (class, what) — the real crate breaks C16
@@ -506,6 +752,17 @@ pub struct CaseResult {
     pub pair_panics: u64,
     /// on pools of >= 2 threads with holds / rendezvous: (par nodes with >= 2 children seen, overlapped)
     pub par_obs: (u64, u64),
+    /// nodes other than the root whose reads() / writes() were checked
+    pub node_checks: u64,
+    pub setup_calls: u64,
+    /// per script letter
+    pub setup_kinds: BTreeMap<char, u64>,
+    /// resources that appeared in a world during a setup call
+    pub created: u64,
+    pub macro_trees: u64,
+    pub arc_pools: u64,
+    /// script steps that dispatch without a setup call
+    pub dispatch_only_steps: u64,
 }
 
 pub struct Tuning {
@@ -546,8 +803,10 @@ pub fn eval_case(case: &Case, mut drv: Option<&mut Drv>, pools: &Pools, tune: &T
     if let Some(drv) = drv.as_deref_mut() {
         drv.ask("ps new");
         for &t in &leaves {
-            let (r, w) = case.decl(t);
-            drv.ask(&format!("ps leaf {} {} {}", t, resl(&r), resl(&w)));
+            let a = drv.ask(&case.driver_leaf(t));
+            if a != "ok" {
+                res.model_v.push(("leaf".into(), format!("the model answers `{}` to `{}`", a, case.driver_leaf(t))));
+            }
         }
         let a = drv.ask(&format!("ps tree {}", case.shape.text()));
         let want = match real_panic {
@@ -574,10 +833,10 @@ pub fn eval_case(case: &Case, mut drv: Option<&mut Drv>, pools: &Pools, tune: &T
     let exp_r: Vec<Res> = leaves.iter().flat_map(|t| case.decl(*t).0).collect();
     let exp_w: Vec<Res> = leaves.iter().flat_map(|t| case.decl(*t).1).collect();
     if rr != exp_r {
-        res.impl_v.push(("reads".into(), format!("root reads() = {} but the leaves declare {} [tree {}]", resl(&rr), resl(&exp_r), case.shape.text())));
+        res.impl_v.push(("reads".into(), format!("root reads() = {} but the leaves' own accessors declare {} [tree {}{}]", resl(&rr), resl(&exp_r), case.shape.text(), flav_note(case))));
     }
     if ww != exp_w {
-        res.impl_v.push(("writes".into(), format!("root writes() = {} but the leaves declare {} [tree {}]", resl(&ww), resl(&exp_w), case.shape.text())));
+        res.impl_v.push(("writes".into(), format!("root writes() = {} but the leaves' own accessors declare {} [tree {}{}]", resl(&ww), resl(&exp_w), case.shape.text(), flav_note(case))));
     }
     if model_built {
         if let Some(drv) = drv.as_deref_mut() {
@@ -595,11 +854,54 @@ pub fn eval_case(case: &Case, mut drv: Option<&mut Drv>, pools: &Pools, tune: &T
     if !res.impl_v.is_empty() {
         return res;
     }
+    // ---- (2a) the same for every other node, built as a tree of its own (down to single leaves)
+    let mut subs = vec![];
+    case.shape.subtrees(&mut subs);
+    for sub in subs.iter().skip(1) {
+        let sc = Case { decls: case.decls.clone(), flavs: case.flavs.clone(), shape: sub.clone(), runs: vec![] };
+        let node = match build_real(&sc, &shared) {
+            Ok(n) => n,
+            Err(e) => {
+                res.impl_v.push(("unexpected-panic".into(), format!("node {} of a tree that was built could not be built on its own: {:?}", sub.text(), e)));
+                return res;
+            }
+        };
+        let (mut rr, mut ww) = (vec![], vec![]);
+        node.reads(&mut rr);
+        node.writes(&mut ww);
+        let (rr, ww) = (back(&rr, &tab), back(&ww, &tab));
+        let sl = sub.leaves();
+        let exp_r: Vec<Res> = sl.iter().flat_map(|t| case.decl(*t).0).collect();
+        let exp_w: Vec<Res> = sl.iter().flat_map(|t| case.decl(*t).1).collect();
+        let what = |t: &Shape| match t {
+            Shape::Leaf(t) => format!("leaf {} ({})", t, case.flav(*t).describe()),
+            _ => format!("node {}", t.text()),
+        };
+        res.node_checks += 1;
+        if rr != exp_r {
+            res.impl_v.push(("reads".into(), format!("{}: reads() = {} but {} {} [tree {}]", what(sub), resl(&rr), if sl.len() == 1 { "its own accessor declares" } else { "its leaves' own accessors declare" }, resl(&exp_r), case.shape.text())));
+        }
+        if ww != exp_w {
+            res.impl_v.push(("writes".into(), format!("{}: writes() = {} but {} {} [tree {}]", what(sub), resl(&ww), if sl.len() == 1 { "its own accessor declares" } else { "its leaves' own accessors declare" }, resl(&exp_w), case.shape.text())));
+        }
+        if !res.impl_v.is_empty() {
+            return res;
+        }
+        if model_built {
+            if let Some(drv) = drv.as_deref_mut() {
+                let a = drv.ask(&format!("ps rw {}", sub.text()));
+                let mine = format!("{} {}", resl(&rr), resl(&ww));
+                if a != mine {
+                    res.model_v.push(("reads".into(), format!("{}: reads() writes() = {} but the model says {}", what(sub), mine, a)));
+                }
+            }
+        }
+    }
     // ---- (2b) `Par::new(a).with(b)` for adjacent children of the root, whatever the root is:
     // children of a seq node conflict freely, so both outcomes of the check occur on big subtrees
     if let Shape::Par(cs) | Shape::Seq(cs) = &case.shape {
         for i in 0..cs.len().saturating_sub(1) {
-            let sub = |s: &Shape| Case { decls: case.decls.clone(), shape: s.clone(), runs: vec![] };
+            let sub = |s: &Shape| Case { decls: case.decls.clone(), flavs: case.flavs.clone(), shape: s.clone(), runs: vec![] };
             let (ca, cb) = (sub(&cs[i]), sub(&cs[i + 1]));
             let (a, b) = match (build_real(&ca, &shared), build_real(&cb, &shared)) {
                 (Ok(a), Ok(b)) => (a, b),
@@ -631,60 +933,193 @@ pub fn eval_case(case: &Case, mut drv: Option<&mut Drv>, pools: &Pools, tune: &T
             }
         }
     }
-    // ---- (3) + (4): one fresh tree per run configuration ----
-    let runs: Vec<RunCfg> = if case.runs.is_empty() { vec![RunCfg { pool: 2, mode: 0, sync: 0, reps: 1, hseed: 0 }] } else { case.runs.clone() };
+    // ---- (3) + (4): one fresh tree and one `ParSeq` per run configuration ----
+    let runs: Vec<RunCfg> = if case.runs.is_empty() { vec![RunCfg::plain(2, 0, 0, 1, 0)] } else { case.runs.clone() };
+    let exp_r: Vec<Res> = leaves.iter().flat_map(|t| case.decl(*t).0).collect();
+    let exp_w: Vec<Res> = leaves.iter().flat_map(|t| case.decl(*t).1).collect();
     for (ri, rc) in runs.iter().enumerate() {
         let shared = Shared::new(ntags);
         shared.rendezvous_timeout_us.store(tune.rdv_timeout_us, SeqCst);
-        let root = match build_real(case, &shared) {
+        let root = match build_with(case, &shared, rc.macros) {
             Ok(r) => r,
             Err(e) => {
-                res.impl_v.push(("unexpected-panic".into(), format!("second construction of the same tree failed: {:?}", e)));
+                res.impl_v.push(("unexpected-panic".into(), format!("second construction of the same tree{} failed: {:?}", if rc.macros { " (with par! / seq!)" } else { "" }, e)));
                 return res;
             }
         };
+        if rc.macros {
+            // the macros must give the tree the explicit calls gave
+            let (mut rr, mut ww) = (vec![], vec![]);
+            root.reads(&mut rr);
+            root.writes(&mut ww);
+            let (rr, ww) = (back(&rr, &tab), back(&ww, &tab));
+            if rr != exp_r || ww != exp_w {
+                res.impl_v.push(("macros".into(), format!("the tree written with par! / seq! reports reads {} writes {} but its leaves declare {} and {} [tree {}]", resl(&rr), resl(&ww), resl(&exp_r), resl(&exp_w), case.shape.text())));
+                return res;
+            }
+            res.macro_trees += 1;
+        }
+        let cx = RunCtx { case, leaves: &leaves, shared: &shared, rc, ri, pools, tune, model_built, tab: &tab };
         let pool = &pools.pools[&rc.pool];
-        let mut world = full_world();
-        let mut ps = ParSeq::new(root, pool);
-        // setup
-        // every other tree is set up / dispatched through `impl RunNow for ParSeq` (par_seq.rs l.238)
-        let via_trait = leaves.len() % 2 == 1;
-        if let Err(e) = catch_unwind(AssertUnwindSafe(|| if via_trait { shred::RunNow::setup(&mut ps, &mut world) } else { ps.setup(&mut world) })) {
-            res.impl_v.push(("setup".into(), format!("ParSeq::setup panicked: {}", panic_message(&e))));
+        let go_on = if rc.arc {
+            res.arc_pools += 1;
+            drive(ParSeq::new(root, pool.clone()), &cx, &mut res, drv.as_deref_mut())
+        } else {
+            drive(ParSeq::new(root, &**pool), &cx, &mut res, drv.as_deref_mut())
+        };
+        if !go_on {
             return res;
         }
-        let order: Vec<usize> = shared.lifecycle.lock().unwrap().iter().filter(|e| e.0 == 'S').map(|e| e.1).collect();
-        for &t in &leaves {
-            let n = shared.behav[t].setups.load(SeqCst);
-            if n != 1 {
-                res.impl_v.push(("setup".into(), format!("ParSeq::setup ran the setup hook of leaf {} {} times [tree {}]", t, n, case.shape.text())));
-                break;
-            }
-            let u = shared.behav[t].sys_setups.load(SeqCst);
-            if u != 1 {
-                res.impl_v.push(("setup".into(), format!("ParSeq::setup called the leaf's own System::setup of leaf {} {} times [tree {}]", t, u, case.shape.text())));
-                break;
+    }
+    res
+}
+
+struct RunCtx<'x> {
+    case: &'x Case,
+    leaves: &'x [usize],
+    shared: &'x Arc<Shared>,
+    rc: &'x RunCfg,
+    ri: usize,
+    pools: &'x Pools,
+    tune: &'x Tuning,
+    model_built: bool,
+    tab: &'x [(ResourceId, Res)],
+}
+
+/// phases (3) and (4) on one `ParSeq<P, _>`: every setup call of the script, the checks after
+/// it, then the dispatches on the world it was called with. `false` = stop evaluating the case.
+fn drive<P: Borrow<rayon::ThreadPool> + Send>(mut ps: ParSeq<P, Dyn>, cx: &RunCtx, res: &mut CaseResult, mut drv: Option<&mut Drv>) -> bool {
+    let (case, leaves, shared, rc) = (cx.case, cx.leaves, cx.shared, cx.rc);
+    // cases written before the script existed: one call, through `impl RunNow for ParSeq`
+    // (par_seq.rs l.238) for every other tree
+    let script: String = if rc.script.is_empty() { if leaves.len() % 2 == 1 { "a".into() } else { "A".into() } } else { rc.script.clone() };
+    let mut all_creates: Vec<Res> = vec![];
+    for &t in leaves {
+        for r in case.creates(t) {
+            if !all_creates.contains(&r) {
+                all_creates.push(r);
             }
         }
-        if ri == 0 && model_built {
-            if let Some(drv) = drv.as_deref_mut() {
-                let a = drv.ask("ps setup");
-                let mine = format!("[{}]", order.iter().map(|t| t.to_string()).collect::<Vec<_>>().join(","));
-                if a != mine {
-                    res.model_v.push(("setup".into(), format!("setup hooks ran in order {} but the model says {}", mine, a)));
+    }
+    let mut worlds: Vec<World> = vec![full_world()];
+    let mut cur = 0usize;
+    let mut calls_made = 0u64;
+    for (k, ch) in script.chars().enumerate() {
+        let via_trait = ch.is_ascii_lowercase();
+        if ch.to_ascii_uppercase() == 'N' {
+            // no setup call at this step: the world at hand is complete (the first world, or
+            // one a setup call has been made on), a `ParSeq` may be dispatched on it right away
+            res.dispatch_only_steps += 1;
+            let call = format!("step {} of `{}` (no setup call; {})", k + 1, script, if calls_made == 0 { "this ParSeq has never been set up" } else { "on the world of the previous step" });
+            if !dispatches(&mut ps, cx, res, drv.as_deref_mut(), &worlds[cur], via_trait, k, &call) {
+                return false;
+            }
+            continue;
+        }
+        let on = match ch.to_ascii_uppercase() {
+            'A' => {
+                cur = 0;
+                if k == 0 { "on a world that holds every resource" } else { "on the first world again" }
+            }
+            'B' => {
+                worlds.push(World::empty());
+                cur = worlds.len() - 1;
+                "on a fresh World::empty()"
+            }
+            _ => {
+                for r in &all_creates {
+                    remove_res(&mut worlds[cur], *r);
+                }
+                "on the current world after the resources the leaves create were removed"
+            }
+        };
+        let call = format!("setup call {} of `{}` on this ParSeq ({}, {})", k + 1, script, if via_trait { "through RunNow::setup" } else { "through ParSeq::setup" }, on);
+        res.setup_calls += 1;
+        *res.setup_kinds.entry(ch).or_insert(0) += 1;
+        let before = present(&worlds[cur], cx.tab);
+        let lc0 = shared.lifecycle.lock().unwrap().len();
+        {
+            let world = &mut worlds[cur];
+            if let Err(e) = catch_unwind(AssertUnwindSafe(|| if via_trait { shred::RunNow::setup(&mut ps, world) } else { ps.setup(world) })) {
+                res.impl_v.push(("setup".into(), format!("{} panicked: {} [tree {}]", call, panic_message(&e), case.shape.text())));
+                return false;
+            }
+        }
+        let order: Vec<usize> = shared.lifecycle.lock().unwrap()[lc0..].iter().filter(|e| e.0 == 'U').map(|e| e.1).collect();
+        calls_made += 1;
+        let want_n = calls_made;
+        for &t in leaves {
+            let f = case.flav(t);
+            if matches!(f, Flav::N | Flav::D) {
+                let n = shared.behav[t].setups.load(SeqCst);
+                if n != want_n {
+                    res.impl_v.push(("setup".into(), format!("{}: the setup hook of the system data of leaf {} ({}) has now run {} times in {} calls [tree {}]", call, t, f.describe(), n, want_n, case.shape.text())));
+                    break;
+                }
+            }
+            if !matches!(f, Flav::P(_)) {
+                let u = shared.behav[t].sys_setups.load(SeqCst);
+                if u != want_n {
+                    res.impl_v.push(("setup".into(), format!("{}: the leaf's own System::setup of leaf {} ({}) has now run {} times in {} calls [tree {}]", call, t, f.describe(), u, want_n, case.shape.text())));
+                    break;
                 }
             }
         }
         if !res.impl_v.is_empty() {
-            return res;
+            return false;
         }
-        // dispatches
+        // the world: what was there, plus what the leaves create — nothing missing, nothing else
+        let after = present(&worlds[cur], cx.tab);
+        let mut want_after: Vec<Res> = cx.tab.iter().map(|x| x.1).filter(|r| before.contains(r) || all_creates.contains(r)).collect();
+        want_after.sort();
+        let mut got_after = after.clone();
+        got_after.sort();
+        if got_after != want_after {
+            let missing: Vec<Res> = want_after.iter().filter(|r| !got_after.contains(r)).cloned().collect();
+            let extra: Vec<Res> = got_after.iter().filter(|r| !want_after.contains(r)).cloned().collect();
+            let who = missing.first().and_then(|m| leaves.iter().find(|t| case.creates(**t).contains(m)).map(|t| format!(" ({} is created by the setup of leaf {}: {})", resl(&[*m]), t, case.flav(*t).describe()))).unwrap_or_default();
+            res.impl_v.push(("setup".into(), format!("{}: afterwards the world lacks {}{} and holds unexpected {} [tree {}]", call, resl(&missing), who, resl(&extra), case.shape.text())));
+            return false;
+        }
+        let mut created: Vec<Res> = after.iter().filter(|r| !before.contains(r)).cloned().collect();
+        created.sort();
+        res.created += created.len() as u64;
+        if cx.ri == 0 && cx.model_built {
+            if let Some(drv) = drv.as_deref_mut() {
+                let a = drv.ask(&format!("ps setup {} {}", if via_trait { "t" } else { "i" }, resl(&before)));
+                // the model lists every leaf; leaves that override nothing cannot be seen here
+                let parts: Vec<&str> = a.split(' ').collect();
+                let seen = |t: &usize| !matches!(case.flav(*t), Flav::P(_));
+                let mine = format!("[{}]", order.iter().map(|t| t.to_string()).collect::<Vec<_>>().join(","));
+                let all = format!("[{}]", leaves.iter().map(|t| t.to_string()).collect::<Vec<_>>().join(","));
+                let theirs_visible = format!("[{}]", leaves.iter().filter(|t| seen(t)).map(|t| t.to_string()).collect::<Vec<_>>().join(","));
+                let ok_order = parts.len() == 2 && parts[0] == all && mine == theirs_visible;
+                let mut theirs_created = if parts.len() == 2 { parse_resl(parts[1]) } else { vec![] };
+                theirs_created.sort();
+                if !ok_order || theirs_created != created {
+                    res.model_v.push(("setup".into(), format!("{}: System::setup ran for leaves {} and created {}, but the model says `{}` [tree {}]", call, mine, resl(&created), a, case.shape.text())));
+                }
+            }
+        }
+        // dispatches on the world just set up
+        if !dispatches(&mut ps, cx, res, drv.as_deref_mut(), &worlds[cur], via_trait, k, &call) {
+            return false;
+        }
+    }
+    true
+}
+
+/// phase (4): `reps` dispatches on `world`, every one checked
+fn dispatches<P: Borrow<rayon::ThreadPool> + Send>(ps: &mut ParSeq<P, Dyn>, cx: &RunCtx, res: &mut CaseResult, mut drv: Option<&mut Drv>, world: &World, via_trait: bool, k: usize, call: &str) -> bool {
+    let (case, leaves, shared, rc, pools, tune) = (cx.case, cx.leaves, cx.shared, cx.rc, cx.pools, cx.tune);
+    let pool: &rayon::ThreadPool = &pools.pools[&rc.pool];
+    {
         for rep in 0..rc.reps {
             shared.reset_state();
             shared.reset_behaviour();
             shared.take_log();
-            let mut hr = Rng::new(rc.hseed, rep as u64);
-            for &t in &leaves {
+            let mut hr = Rng::new(rc.hseed, rep as u64 + 1000 * k as u64);
+            for &t in leaves {
                 let b = &shared.behav[t];
                 match rc.sync {
                     1 => b.hold_us.store(if hr.chance(35) { 0 } else { hr.below(tune.hold_us + 1) }, SeqCst),
@@ -695,32 +1130,32 @@ pub fn eval_case(case: &Case, mut drv: Option<&mut Drv>, pools: &Pools, tune: &T
                     _ => {}
                 }
             }
-            let w = &world;
+            let w = world;
             let out = catch_unwind(AssertUnwindSafe(|| match rc.mode {
-                0 if via_trait => shred::RunNow::run_now(&mut ps, w),
+                0 if via_trait => shred::RunNow::run_now(ps, w),
                 0 => ps.dispatch(w),
-                1 if via_trait => pool.install(|| shred::RunNow::run_now(&mut ps, w)),
+                1 if via_trait => pool.install(|| shred::RunNow::run_now(ps, w)),
                 1 => pool.install(|| ps.dispatch(w)),
                 _ => pools.other.install(|| ps.dispatch(w)),
             }));
             res.dispatches += 1;
             let log: Vec<(char, usize)> = shared.take_log().iter().map(|e| (e.kind, *e.inst.last().unwrap_or(&usize::MAX))).collect();
             let logtext = log.iter().map(|e| format!("{}{}", e.0, e.1)).collect::<Vec<_>>().join(" ");
-            let ctx = format!("[tree {}; pool of {}, dispatch called {}; log {}]", case.shape.text(), rc.pool, ["from outside the pool", "from a worker of the pool", "from a worker of another pool"][rc.mode as usize], logtext);
+            let ctx = format!("[tree {}; pool of {}{}, dispatch called {}, after {}; log {}]", case.shape.text(), rc.pool, if rc.arc { " held as Arc<ThreadPool>" } else { "" }, ["from outside the pool", "from a worker of the pool", "from a worker of another pool"][rc.mode as usize], call, logtext);
             if let Err(e) = out {
                 res.impl_v.push(("dispatch-panic".into(), format!("dispatch of a tree that passed every debug check panicked: {} {}", panic_message(&e), ctx)));
-                return res;
+                return false;
             }
             let runs_now: BTreeMap<usize, u64> = leaves.iter().map(|&t| (t, shared.behav[t].runs.load(SeqCst))).collect();
-            let (win, mut bad) = once_oracle(&leaves, &log, &runs_now);
+            let (win, mut bad) = once_oracle(leaves, &log, &runs_now);
             if let Some(b) = bad.first() {
                 res.impl_v.push(("once".into(), format!("{} {}", b, ctx)));
-                return res;
+                return false;
             }
             seq_oracle(&case.shape, &win, &mut bad);
             if let Some(b) = bad.first() {
                 res.impl_v.push(("seq-order".into(), format!("{} {}", b, ctx)));
-                return res;
+                return false;
             }
             let ov = overlap_stats(&case.shape, &win);
             let e = res.overlap.entry(rc.pool).or_insert((0, 0, 0, 0));
@@ -735,7 +1170,7 @@ pub fn eval_case(case: &Case, mut drv: Option<&mut Drv>, pools: &Pools, tune: &T
             if res.sample_trace.is_none() || ov.1 > 0 {
                 res.sample_trace = Some(logtext.clone());
             }
-            if model_built {
+            if cx.model_built {
                 if let Some(drv) = drv.as_deref_mut() {
                     drv.ask("ps begin");
                     let mut verdict = String::new();
@@ -753,13 +1188,13 @@ pub fn eval_case(case: &Case, mut drv: Option<&mut Drv>, pools: &Pools, tune: &T
                         res.accepted += 1;
                     } else {
                         res.model_v.push(("trace".into(), format!("the model's acceptor answers `{}` to a real trace {}", verdict, ctx)));
-                        return res;
+                        return false;
                     }
                 }
             }
         }
     }
-    res
+    true
 }
 
 // ---------------------------------------------------------------- generator
@@ -768,12 +1203,15 @@ pub struct GenCfg {
     pub max_leaves: usize,
     pub reps: u32,
     pub runs: usize,
+    /// longest setup script
+    pub max_setups: usize,
 }
 
 struct G {
     rng: Rng,
     next: usize,
     budget: usize,
+    flavs: BTreeMap<usize, Flav>,
 }
 impl G {
     fn fanout(&mut self) -> usize {
@@ -824,9 +1262,23 @@ impl G {
     fn assign(&mut self, s: &Shape, ar: &[Res], aw: &[Res], decls: &mut BTreeMap<usize, (Vec<Res>, Vec<Res>)>) {
         match s {
             Shape::Leaf(t) => {
+                // 30 %: static system data, one whose type-level access fits what this position
+                // may touch (number 0, `()`, always does; it is taken less often)
+                if self.rng.chance(30) {
+                    let fit: Vec<usize> = (0..NSTAT).filter(|k| STAT[*k].0.iter().all(|x| ar.contains(x)) && STAT[*k].1.iter().all(|x| aw.contains(x))).collect();
+                    let k = *self.rng.pick(&fit);
+                    if k != 0 || self.rng.chance(40) {
+                        decls.insert(*t, (STAT[k].0.to_vec(), STAT[k].1.to_vec()));
+                        let f = if self.rng.chance(50) { Flav::S(k) } else { Flav::P(k) };
+                        self.flavs.insert(*t, f);
+                        return;
+                    }
+                }
                 let w = self.subset(aw, 35, 3);
                 let r = self.subset(ar, 35, 4);
                 decls.insert(*t, (r, w));
+                let f = if self.rng.chance(50) { Flav::D } else { Flav::N };
+                self.flavs.insert(*t, f);
             }
             Shape::Seq(cs) => {
                 for c in cs {
@@ -863,7 +1315,7 @@ impl G {
 /// profile 0 = conflict-free across par children, 1 = the same plus one injected conflict
 /// between two random leaves, 2 = independent random access sets over a small universe
 pub fn gen_case(seed: u64, idx: u64, cfg: &GenCfg) -> (Case, u8, Option<u8>) {
-    let mut g = G { rng: Rng::new(seed, idx), next: 0, budget: 0 };
+    let mut g = G { rng: Rng::new(seed, idx), next: 0, budget: 0, flavs: BTreeMap::new() };
     let profile = match g.rng.below(100) {
         0..=59 => 0u8,
         60..=84 => 1,
@@ -880,9 +1332,18 @@ pub fn gen_case(seed: u64, idx: u64, cfg: &GenCfg) -> (Case, u8, Option<u8>) {
     let mut kind = None;
     if profile == 2 {
         for t in shape.leaves() {
+            if g.rng.chance(30) {
+                let k = g.rng.below(NSTAT as u64) as usize;
+                decls.insert(t, (STAT[k].0.to_vec(), STAT[k].1.to_vec()));
+                let f = if g.rng.chance(50) { Flav::S(k) } else { Flav::P(k) };
+                g.flavs.insert(t, f);
+                continue;
+            }
             let w = g.subset(&uni, 12, 2);
             let r = g.subset(&uni, 15, 3);
             decls.insert(t, (r, w));
+            let f = if g.rng.chance(50) { Flav::D } else { Flav::N };
+            g.flavs.insert(t, f);
         }
     } else {
         g.assign(&shape, &uni, &uni, &mut decls);
@@ -896,6 +1357,14 @@ pub fn gen_case(seed: u64, idx: u64, cfg: &GenCfg) -> (Case, u8, Option<u8>) {
             let r = *g.rng.pick(&uni);
             let k = g.rng.below(3) as u8;
             kind = Some(k);
+            // static system data cannot take an extra id: such a leaf becomes a dynamic one
+            // that declares the same
+            for l in [x, y] {
+                if g.flavs.get(&l).and_then(|f| f.stat()).is_some() {
+                    let f = if g.rng.chance(50) { Flav::D } else { Flav::N };
+                    g.flavs.insert(l, f);
+                }
+            }
             match k {
                 0 => {
                     decls.get_mut(&x).unwrap().1.push(r);
@@ -914,15 +1383,27 @@ pub fn gen_case(seed: u64, idx: u64, cfg: &GenCfg) -> (Case, u8, Option<u8>) {
     }
     let mut runs = vec![];
     for _ in 0..cfg.runs {
+        // the first call is mostly on the full world; later calls: same world again, a fresh
+        // one, or after removal, through either entry point
+        let n = 1 + g.rng.below(cfg.max_setups.max(1) as u64) as usize;
+        let mut script = String::new();
+        for i in 0..n {
+            let c = if i == 0 { *g.rng.pick(&['A', 'A', 'a', 'a', 'B', 'b', 'N', 'n']) } else { *g.rng.pick(&['A', 'a', 'B', 'b', 'R', 'r', 'B', 'b', 'R', 'r', 'N', 'n']) };
+            script.push(c);
+        }
         runs.push(RunCfg {
             pool: *g.rng.pick(&[1usize, 2, 4, 4, 8, 8]),
             mode: *g.rng.pick(&[0u8, 0, 1, 1, 2]),
             sync: *g.rng.pick(&[0u8, 1, 1, 1, 2]),
             reps: cfg.reps,
             hseed: g.rng.next() % 1_000_000,
+            script,
+            arc: g.rng.chance(30),
+            macros: g.rng.chance(30),
         });
     }
-    (Case { decls, shape, runs }, profile, kind)
+    let flavs = g.flavs.clone();
+    (Case { decls, flavs, shape, runs }, profile, kind)
 }
 
 /// every shape of depth <= 2, fan-out <= 3 and at most 4 leaves, every assignment of
@@ -974,18 +1455,25 @@ fn small_scope(todo: &mut Vec<(String, Case)>) {
         let k = s.leaves().len();
         for code in 0..3usize.pow(k as u32) {
             let mut decls = BTreeMap::new();
+            let mut flavs = BTreeMap::new();
             let mut c = code;
+            n += 1;
             for t in 0..k {
-                let d = match c % 3 {
-                    0 => (vec![], vec![]),
-                    1 => (vec![(0u8, 0u64)], vec![]),
-                    _ => (vec![], vec![(0, 0)]),
+                // flavours rotate with the case number: n / d for every declaration, and the
+                // static data with that declaration where one exists (`()` and `Read<R0>`)
+                let rot = (n as usize + t) % 4;
+                let (d, f) = match c % 3 {
+                    0 => ((vec![], vec![]), [Flav::N, Flav::D, Flav::S(0), Flav::P(0)][rot]),
+                    1 => ((vec![(0u8, 0u64)], vec![]), [Flav::N, Flav::D, Flav::S(1), Flav::P(1)][rot]),
+                    _ => ((vec![], vec![(0, 0)]), [Flav::N, Flav::D, Flav::D, Flav::N][rot]),
                 };
                 c /= 3;
                 decls.insert(t, d);
+                flavs.insert(t, f);
             }
-            n += 1;
-            todo.push((format!("small:{}", n), Case { decls, shape: s.clone(), runs: vec![RunCfg { pool: 2, mode: (n % 3) as u8, sync: 0, reps: 1, hseed: n }] }));
+            let script = ["A", "aA", "Bb", "AR", "br", "ABa"][(n % 6) as usize].to_string();
+            let rc = RunCfg { script, arc: n % 5 == 0, macros: n % 4 == 1, ..RunCfg::plain(2, (n % 3) as u8, 0, 1, n) };
+            todo.push((format!("small:{}", n), Case { decls, flavs, shape: s.clone(), runs: vec![rc] }));
         }
     }
 }
@@ -1025,7 +1513,22 @@ pub fn shrink(case: &Case, pred: &mut dyn FnMut(&Case) -> bool) -> Case {
         if changed {
             continue;
         }
+        // the plainest flavour that still fails (a static leaf keeps its declaration)
+        for t in cur.shape.leaves() {
+            if cur.flav(t) != Flav::N && budget > 0 {
+                budget -= 1;
+                let mut c = cur.clone();
+                c.flavs.remove(&t);
+                if pred(&c) {
+                    cur = c;
+                    changed = true;
+                }
+            }
+        }
         'decl: for t in cur.shape.leaves() {
+            if cur.flav(t).stat().is_some() {
+                continue;
+            }
             let (r, w) = cur.decl(t);
             for side in 0..2 {
                 let l = if side == 0 { r.len() } else { w.len() };
@@ -1063,7 +1566,39 @@ pub fn shrink(case: &Case, pred: &mut dyn FnMut(&Case) -> bool) -> Case {
             }
         }
     }
+    // fewer setup calls, plain pool handle, explicit construction
+    if let Some(r) = cur.runs.first().cloned() {
+        let mut r = r;
+        let mut i = 0;
+        while r.script.len() > 1 && i < r.script.len() {
+            let mut r2 = r.clone();
+            r2.script.remove(i);
+            let mut c = cur.clone();
+            c.runs = vec![r2.clone()];
+            if pred(&c) {
+                cur = c;
+                r = r2;
+            } else {
+                i += 1;
+            }
+        }
+        for which in 0..2 {
+            let mut r2 = r.clone();
+            if which == 0 {
+                r2.arc = false;
+            } else {
+                r2.macros = false;
+            }
+            let mut c = cur.clone();
+            c.runs = vec![r2.clone()];
+            if c != cur && pred(&c) {
+                cur = c;
+                r = r2;
+            }
+        }
+    }
     cur.decls.retain(|t, _| cur.shape.leaves().contains(t));
+    cur.flavs.retain(|t, _| cur.shape.leaves().contains(t));
     cur
 }
 
@@ -1072,11 +1607,11 @@ pub fn shrink(case: &Case, pred: &mut dyn FnMut(&Case) -> bool) -> Case {
 pub fn run(args: &Args, rep: &mut Report) {
     let seed = args.num("seed", 1);
     let cases = args.num("cases", 300);
-    let cfg = GenCfg { max_leaves: args.num("max-leaves", 20) as usize, reps: args.num("reps", 2) as u32, runs: args.num("runs", 2) as usize };
+    let cfg = GenCfg { max_leaves: args.num("max-leaves", 20) as usize, reps: args.num("reps", 2) as u32, runs: args.num("runs", 2) as usize, max_setups: args.num("max-setups", 4) as usize };
     let tune = Tuning { hold_us: args.num("hold-us", 150), rdv_timeout_us: args.num("rdv-us", 300) };
     let mut drv = Drv::spawn(&args.str("driver", "/verif/lean/.lake/build/bin/driver"));
     let pools = Pools::new();
-    rep.rule = "Par/Seq trees (depth <= 5, fan-out <= 6) assembled at run time from the real Par/Seq nodes; leaf access sets conflict-free across par children (60%), the same plus one injected W/W, W/R or R/W conflict (25%), or independent random (15%); built trees are dispatched on pools of 1/2/4/8 threads from outside / inside the pool / a worker of another pool with holds inside run; distinct = distinct (tree, declarations); non-trivial = a par and a seq node with >= 2 children each, or a tree whose construction must panic".into();
+    rep.rule = "Par/Seq trees (depth <= 5, fan-out <= 6) assembled at run time from the real Par/Seq nodes (explicit calls and par!/seq!); leaves of four accessor flavours (dynamic data without / with a default accessor, static Read/Write data with / without an overridden setup); every run sets the one ParSeq up 1-4 times (same world, fresh world, after removal; ParSeq::setup / RunNow::setup) and dispatches after each call; leaf access sets conflict-free across par children (60%), the same plus one injected W/W, W/R or R/W conflict (25%), or independent random (15%); built trees are dispatched on pools of 1/2/4/8 threads from outside / inside the pool / a worker of another pool with holds inside run; distinct = distinct (tree, declarations); non-trivial = a par and a seq node with >= 2 children each, or a tree whose construction must panic".into();
     let mut todo: Vec<(String, Case)> = vec![];
     let read_case = |f: &std::path::Path| -> Option<Case> {
         let text = std::fs::read_to_string(f).ok()?;
@@ -1146,6 +1681,20 @@ pub fn run(args: &Args, rep: &mut Report) {
         }
         rep.add("dispatches", res.dispatches);
         par_obs = (par_obs.0 + res.par_obs.0, par_obs.1 + res.par_obs.1);
+        rep.add("nodes_below_the_root_whose_reads_writes_were_checked", res.node_checks);
+        rep.add("setup_calls", res.setup_calls);
+        for (c, n) in &res.setup_kinds {
+            rep.add(&format!("setup_calls_{}", match c { 'A' => "first_world_inherent", 'a' => "first_world_RunNow", 'B' => "fresh_world_inherent", 'b' => "fresh_world_RunNow", 'R' => "after_removal_inherent", _ => "after_removal_RunNow" }), *n);
+        }
+        rep.add("resources_created_by_setup_calls", res.created);
+        rep.add("steps_dispatching_without_a_setup_call", res.dispatch_only_steps);
+        rep.add("trees_built_with_the_macros", res.macro_trees);
+        rep.add("runs_with_pool_as_Arc", res.arc_pools);
+        if !label.starts_with("small:") {
+            for t in case.shape.leaves() {
+                rep.count(&format!("leaf_flavour_{}", match case.flav(t) { Flav::N => "dynamic_no_default", Flav::D => "dynamic_with_default", Flav::S(_) => "static_setup_overridden", Flav::P(_) => "static_plain" }));
+            }
+        }
         rep.add("pair_checks_Par_new_a_with_b", res.pair_checks);
         rep.add("pair_checks_that_panicked", res.pair_panics);
         rep.traces_validated += res.accepted;
@@ -1197,8 +1746,9 @@ pub fn run(args: &Args, rep: &mut Report) {
     if par_obs.0 >= 50 && par_obs.1 == 0 {
         let canned = Case {
             decls: BTreeMap::new(),
+            flavs: BTreeMap::new(),
             shape: Shape::Par(vec![Shape::Leaf(0), Shape::Leaf(1)]),
-            runs: vec![RunCfg { pool: 4, mode: 0, sync: 2, reps: 60, hseed: 1 }],
+            runs: vec![RunCfg::plain(4, 0, 2, 60, 1)],
         };
         let r = eval_case(&canned, None, &pools, &tune);
         let lines = if r.par_obs.1 == 0 { canned.lines() } else { vec![] };
